@@ -4,7 +4,7 @@ patches apply to the same scratch copy; the check of the property the seeded cha
 against buying silence on the refactorings at the price of detection.   usage: tools/cross_check.py [--jobs N]"""
 import json, os, shutil, subprocess, sys, tempfile
 from concurrent.futures import ThreadPoolExecutor
-V = '/verif'
+V = os.path.dirname(os.path.dirname(os.path.abspath(__file__)))  # the tree this tool lives in (a `vp run` snapshot runs its own copy)
 jobs = int(sys.argv[sys.argv.index('--jobs') + 1]) if '--jobs' in sys.argv else 10
 equivs = sorted(n for n in os.listdir(f'{V}/equiv') if os.path.exists(f'{V}/equiv/{n}/patch.diff'))
 seeds = sorted(n for n in os.listdir(f'{V}/seeded') if os.path.exists(f'{V}/seeded/{n}/meta.json'))
